@@ -113,24 +113,38 @@ def run(R, env):
     else:
         rk = rc.body.key
         res = lambda t: t[0] == "field" and t[2] == "result" and is_param_of_type(t[1], "Reply")
+        from engine.analysis import success_exits as _se3, forms as _forms3
         found = []
         G = Guard("result-ok", subject=lambda s: False, variant=lambda subj, names: ({"Ok"} if res(subj) else None))
         ok, off = guarded(rc, G, prog, env.depth, found)
+        # (or, evaluated as a world: with msg.result = Err(..) no success exit is reachable, wherever the
+        # result is classified — in the handler or in a helper such as Submission::from_reply(msg.result))
+        w_err = rc.assume_variant(res, "Err").settle()
+        R.worlds += 1
+        ok = ok or not _se3(w_err)
         R.ob("C07.R3", "reply:failed-submission-is-an-error", ok, "reply can succeed for a failed sub-message: %s" % (off,), fn=rk, found=found)
         data = lambda t: t[0] == "field" and t[2] == "data" and t[1][0] == "payload" and res(t[1][1])
         G = Guard("data-some", subject=lambda s: False, variant=lambda subj, names: ({"Some"} if data(subj) else None))
         found = []
         ok, off = guarded(rc, G, prog, env.depth, found)
+        w_nodata = rc.assume((res, ("variant", "Ok")), (data, ("variant", "None"))).settle()
+        R.worlds += 1
+        ok = ok or not _se3(w_nodata)
         R.ob("C07.R3", "reply:missing-data-is-an-error", ok, "reply can succeed without response data: %s" % (off,), fn=rk, found=found)
         dec = lambda s: any(x[0] == "call" and x[1].endswith("Message::decode") for x in subterms(s)) and s[0] == "call"
         found = []
         ok, off = guarded(rc, Guard("decodes", subject=dec), prog, env.depth, found)
+        w_undec = rc.assume((res, ("variant", "Ok")), (data, ("variant", "Some")), (dec, ("ok", False))).settle()
+        w_good = rc.assume((res, ("variant", "Ok")), (data, ("variant", "Some")), (dec, ("ok", True))).settle()
+        R.worlds += 2
+        ok = ok or (not _se3(w_undec) and bool(_se3(w_good)))
         R.ob("C07.R3", "reply:undecodable-data-is-an-error", ok, "reply can succeed when the response does not decode: %s" % (off,), fn=rk, found=found)
         ws = [o for o in storage_ops_deep(prog, rc, env.depth) if o["kind"] == "w"]
         kinds = sorted((ns_of(prog, o["args"][0]), o["op"]) for o in ws)
         R.ob("C07.R3", "reply:write-set", kinds == [("ibc_waiting_for_reply", "remove"), ("inflight", "save")], "writes in reply: %s" % kinds, fn=rk)
         rid = lambda t: t[0] == "field" and t[2] == "id" and is_param_of_type(t[1], "Reply")
-        waiting = lambda t: t[0] == "payload" and shared.unwrap_payload(t)[0] == "call" and shared.unwrap_payload(t)[1].endswith("Map::load") and ns_of(prog, shared.unwrap_payload(t)[2][0]) == "ibc_waiting_for_reply" and rid(shared.unwrap_payload(t)[2][2])
+        waiting = lambda t: t[0] == "payload" and shared.unwrap_payload(t)[0] == "call" and shared.unwrap_payload(t)[1].endswith(("Map::load", "Map::may_load")) and ns_of(prog, shared.unwrap_payload(t)[2][0]) == "ibc_waiting_for_reply" and rid(shared.unwrap_payload(t)[2][2])
+        any_form = lambda x, pred_: x is not None and any(pred_(f_) for f_ in _forms3(prog, x, 3))
         for o in ws:
             ns = ns_of(prog, o["args"][0])
             R.ob("C07.R3", "reply:%s-on-every-success-path" % ns, must_pass(rc, o["root_bb"]), "reply can succeed without this write", loc=o["loc"], fn=rk)
@@ -138,10 +152,11 @@ def run(R, env):
                 R.ob("C07.R3", "reply:removes-record-of-msg.id", rid(o["args"][2]), "removes key %s" % fmt(o["args"][2])[:80], loc=o["loc"], fn=rk)
             if ns == "inflight":
                 k, v = o["args"][2], shared.written_agg(prog, o)
-                seq_ok = k[0] == "field" and k[2] == "sequence" and any(x[0] == "call" and x[1].endswith("Message::decode") for x in subterms(k))
+                # (the decoded sequence / the waiting record may come out of helpers: judged on their value forms)
+                seq_ok = any_form(k, lambda f_: f_[0] == "field" and f_[2] == "sequence" and f_[1][0] == "payload" and shared.unwrap_payload(f_[1])[0] == "call" and shared.unwrap_payload(f_[1])[1].endswith("Message::decode"))
                 good = v[0] == "agg" and same(agg_field(v, "sequence"), k) and seq_ok
                 am, rv_ = agg_field(v, "amount"), agg_field(v, "receiver")
-                good = good and am is not None and am[0] == "field" and am[2] == "amount" and waiting(am[1]) and rv_ is not None and rv_[0] == "field" and rv_[2] == "receiver" and waiting(rv_[1])
+                good = good and any_form(am, lambda f_: f_[0] == "field" and f_[2] == "amount" and waiting(f_[1])) and any_form(rv_, lambda f_: f_[0] == "field" and f_[2] == "receiver" and waiting(f_[1]))
                 st = agg_field(v, "status")
                 good = good and st is not None and st[0] == "agg" and st[2] == "Sent"
                 R.ob("C07.R3", "reply:packet-record", good, "in-flight record %s under key %s; expected {sequence: decoded seq, amount/receiver of the waiting record of msg.id, status: Sent} under that seq" % (fmt(v)[:200], fmt(k)[:80]), loc=o["loc"], fn=rk)
